@@ -406,7 +406,7 @@ class Check(core.PropertyCheck):
             cap = 900 if ctx.quick else 6000  # a seeded sample of the edge cover when it is larger than that
             if len(behs) > cap:
                 behs = rng.sample(behs, cap)
-            behs += m.graph.random_walks(rng, 200 if ctx.quick else 3000, 20)
+            behs += m.graph.random_walks(rng, 200 if ctx.quick else 1500, 20)
             for b in behs:
                 if len(b) < 2:
                     continue
